@@ -108,7 +108,7 @@ TEXT.update({
 TEXT_ADD = {
     "C01": " Also proved: the line assembly of the synchronous StateHandle::write (exactly format output + line ending reaches State::write_buffer, the thread-local buffer is empty on every exit path) and the decision of collision_free_infix_for_rotated_file (a rotated file gets the plain name iff neither it, nor its .gz form, nor any .restart-NNNN sibling exists; otherwise a discriminant above every well-formed sibling's).",
     "C02": " FlexiLogger::log is also proved in the `if` direction (token facts: every named registered writer and, when allowed, the default channel are written to); LogSpecBuilder builds exactly its entries (unit specbuilder). Logger::build (second half, copied into a wrapper) sets the facade gate from spec.max_level() of the initial specification; logger and handle share one specification lock.",
-    "C04": " LoggerHandle::{flush, shutdown} and Drop for WritersHandle reach the primary writer and every additional writer (token facts, loop invariants); StdWriter::flush in all three modes.",
+    "C04": " LoggerHandle::{flush, shutdown} reach the primary writer and every additional writer (token facts, loop invariants); Drop for LoggerHandle shuts the writers down iff the dropped clone is the last one (after the repair of F9); StdWriter::flush in all three modes.",
     "C06": " latest_timestamp_file (which file an appending logger with direct timestamp naming continues) is proved against the listing oracle: configured suffix only, newest parseable time stamp, else now (eager iterator shims R16, proved fold lemma); names of rotated files are never reused (unit collide).",
     "C14": " latest_timestamp_file considers files with the configured suffix only; the cleanup removes listed files only, for every listing length (unit cleanup).",
     "C13": " Logger's duplication / target setters change exactly their field; Logger::build constructs the primary writer from the configured duplication levels and writers.",
